@@ -275,7 +275,27 @@ fn sink_swap_raw<F: Family, H: AnyValueMut, T: Elem>(h: H) -> Tok {
     drop(h);
     Tok::Id(s)
 }
-fn boxed_w<T: Elem>() -> BoxedVal<'static> { BoxedVal::new(AnyValueWrapper::new(T::make(reg::fresh()))) }
+/// what a value says about itself before it is offered to the library: `size()`, `value_typeid()`, the extent and the
+/// address of its byte view must be those of the `T` it was made from (`BAD48`); runs no user code
+fn check_self_report<T: Elem, V: AnyValue>(v: &V, at: *const u8) {
+    let sz = std::mem::size_of::<T>();
+    let b = AnyValueTypeless::as_bytes(v);
+    if v.size() != sz || b.len() != sz || v.value_typeid() != TypeId::of::<T>() || (sz != 0 && b.as_ptr() != at) {
+        reg::log(reg::EV_BAD, 48, v.size() as u64, b.len() as u64);
+    }
+}
+fn wrapper_checked<T: Elem>() -> AnyValueWrapper<T> {
+    let w = AnyValueWrapper::new(T::make(reg::fresh()));
+    let at = AnyValueTypeless::as_bytes(&w).as_ptr();
+    // the wrapper owns its value inline: the byte view must lie inside the wrapper itself
+    let lo = &w as *const AnyValueWrapper<T> as usize;
+    if std::mem::size_of::<T>() != 0 && !((at as usize) >= lo && (at as usize) + std::mem::size_of::<T>() <= lo + std::mem::size_of::<AnyValueWrapper<T>>()) {
+        reg::log(reg::EV_BAD, 48, 1, 1);
+    }
+    check_self_report::<T, _>(&w, at);
+    w
+}
+fn boxed_w<T: Elem>() -> BoxedVal<'static> { BoxedVal::new(wrapper_checked::<T>()) }
 fn boxed_r<T: Elem>() -> (BoxedVal<'static>, Box<dyn RawSlotDyn>) {
     let mut slot = Box::new(RawSlot::<T>::new());
     let raw = slot.raw();
@@ -411,12 +431,13 @@ macro_rules! impl_kind {
     ($Tr:ty, $M:ty, $clone:tt, $resize:tt, $cei:tt, $raw:tt) => {
         impl DV<$Tr, $M> {
             fn push_w<T: Elem>(&mut self, at: Option<usize>) {
-                let x = AnyValueWrapper::new(T::make(reg::fresh()));
+                let x = wrapper_checked::<T>();
                 match at { None => self.v.push(x), Some(i) => self.v.insert(i, x) }
             }
             fn push_r<T: Elem>(&mut self, at: Option<usize>) {
                 let mut slot = RawSlot::<T>::new();
                 let raw = slot.raw();
+                check_self_report::<T, _>(&raw, &*slot.val as *const T as *const u8);
                 match at { None => self.v.push(raw), Some(i) => self.v.insert(i, raw) }
                 slot.taken = true;
             }
